@@ -19,22 +19,40 @@ func VerifC17_BinaryRoundTrip() {
 	vreach("end")
 }
 
+// AppendBinary onto a buffer of arbitrary content, prefix length 0..12 and spare capacity
+// 0..16 (below, at and above the 8 bytes a handle needs): prefix kept, handle decodable,
+// equals MarshalBinary; two handles appended in a row both survive.
 func VerifC17_AppendBinary() {
 	e := Entity{entityID(vU32("id")), vU32("gen")}
-	pre := []byte{vU8("p0"), vU8("p1"), vU8("p2")}
-	p0, p1, p2 := pre[0], pre[1], pre[2]
-	out, err := e.AppendBinary(pre)
+	e2 := Entity{entityID(vU32("id2")), vU32("gen2")}
+	n := []int{0, 3, 8, 12}[vPick("prefix-len", 4)]
+	spare := []int{0, 4, 7, 8, 9, 16}[vPick("spare-capacity", 6)]
+	buf := make([]byte, n+spare)
+	for i := range buf { // also the spare region holds arbitrary stale bytes
+		buf[i] = vU8("b")
+	}
+	var pre [12]byte
+	copy(pre[:], buf[:n])
+	out, err := e.AppendBinary(buf[:n])
 	vcheck("no-error", err == nil)
-	vcheck("len", len(out) == 11)
-	vcheck("prefix-kept", out[0] == p0 && out[1] == p1 && out[2] == p2)
+	vcheck("len", len(out) == n+8)
+	keep := true
+	for i := 0; i < n; i++ {
+		keep = keep && out[i] == pre[i]
+	}
+	vcheck("prefix-kept", keep)
 	var d Entity
-	vcheck("decode", d.UnmarshalBinary(out[3:]) == nil && d == e)
+	vcheck("decode", d.UnmarshalBinary(out[n:]) == nil && d == e)
 	m, _ := e.MarshalBinary()
 	same := true
 	for i := 0; i < 8; i++ {
-		same = same && m[i] == out[3+i]
+		same = same && m[i] == out[n+i]
 	}
 	vcheck("append-equals-marshal", same)
+	out2, err2 := e2.AppendBinary(out)
+	var d1, d2 Entity
+	vcheck("second-append", err2 == nil && len(out2) == n+16 &&
+		d1.UnmarshalBinary(out2[n:n+8]) == nil && d1 == e && d2.UnmarshalBinary(out2[n+8:]) == nil && d2 == e2)
 	vreach("end")
 }
 
